@@ -12,6 +12,7 @@ package mux
 import (
 	"bytes"
 	"fmt"
+	"runtime"
 	"testing"
 	"time"
 
@@ -410,4 +411,103 @@ func TestVerif_C27_OrderRandom(t *testing.T) {
 		}
 		return c
 	}, vfC27OrderRun)
+}
+
+// ---- NewEndpoint against the read loop, natural schedules ----
+
+type vfC27ConcCase struct {
+	Class  int `json:"class"`
+	K      int `json:"k"`      // datagrams of the class queued before NewEndpoint starts
+	J      int `json:"j"`      // datagrams dispatched by the read-loop goroutine while NewEndpoint runs
+	Size   int `json:"size"`   // datagram size in bytes
+	Yields int `json:"yields"` // Gosched calls of the read-loop goroutine before its first dispatch
+	Reps   int `json:"reps"`
+}
+
+// vfC27ConcRun: K early datagrams are pending; NewEndpoint and the (single) read-loop goroutine
+// dispatching J more datagrams of the class then run concurrently, uncontrolled.  Whatever the
+// interleaving, the endpoint must end up with all K+J datagrams, each once, in arrival order.
+func vfC27ConcRun(v *vfT, c vfC27ConcCase) {
+	for rep := 0; rep < c.Reps; rep++ {
+		m := vfC27NewMux()
+		var want [][]byte
+		mk := func(seq int) []byte {
+			b := make([]byte, c.Size)
+			copy(b, vfC27Packet(c.Class, seq))
+			for i := 12; i < len(b); i++ {
+				b[i] = byte(seq*31 + i)
+			}
+			return b
+		}
+		for i := 0; i < c.K; i++ {
+			b := mk(i + 1)
+			if err := m.dispatch(b); err != nil {
+				v.Violation("C27/conc/dispatch", "dispatch: %v", err)
+			}
+			want = append(want, b)
+		}
+		var e *Endpoint
+		done := make(chan struct{})
+		go func() {
+			defer close(done)
+			e = m.NewEndpoint(vfC27Matchers[c.Class])
+		}()
+		for y := 0; y < c.Yields; y++ {
+			runtime.Gosched()
+		}
+		for i := 0; i < c.J; i++ {
+			b := mk(c.K + i + 1)
+			if err := m.dispatch(b); err != nil {
+				v.Violation("C27/conc/dispatch", "dispatch: %v", err)
+			}
+			want = append(want, b)
+		}
+		select {
+		case <-done:
+		case <-time.After(20 * time.Second):
+			v.Violation("C27/conc/stuck", "NewEndpoint did not return within 20s\n%s", vfPionStacks())
+		}
+		var got [][]byte
+		rd := make([]byte, c.Size+16)
+		for e.buffer.Count() > 0 {
+			n, err := e.Read(rd)
+			if err != nil {
+				v.Violation("C27/conc/read", "endpoint read: %v", err)
+			}
+			got = append(got, append([]byte{}, rd[:n]...))
+		}
+		m.lock.Lock()
+		stranded := len(m.pendingPackets)
+		m.lock.Unlock()
+		if len(got) != len(want) {
+			v.Violation("C27/conc/count", "endpoint %s got %d datagrams, %d of its class arrived (%d queued before NewEndpoint, %d during it); %d still in the pending queue; got %s want %s",
+				vfC27Names[c.Class], len(got), len(want), c.K, c.J, stranded, vfC27Seqs(got), vfC27Seqs(want))
+		}
+		for i := range got {
+			if !bytes.Equal(got[i], want[i]) {
+				v.Violation("C27/conc/reordered", "endpoint %s read %s, arrival order %s", vfC27Names[c.Class], vfC27Seqs(got), vfC27Seqs(want))
+			}
+		}
+		_ = e.Close()
+	}
+	if c.K > 0 && c.J > 0 {
+		v.NonTrivial()
+	}
+}
+
+func TestVerif_C27_Concurrent(t *testing.T) {
+	vfProperty(t, "C27", vfOpts{
+		Rule:        "natural schedules: K datagrams of a class pending, then NewEndpoint runs concurrently with the single read-loop goroutine dispatching J more (K+J <= 15, sizes 12..1400 bytes, 10 repetitions per case); the endpoint must hold all K+J, once each, in arrival order; non-trivial = K>0 and J>0",
+		Assumptions: []string{"the interleaving is whatever the scheduler produces: a window of a few instructions is found only by luck, windows that contain buffer writes are found readily"},
+	}, func(v *vfT) vfC27ConcCase {
+		k := rapid.IntRange(0, 12).Draw(v.R, "k")
+		return vfC27ConcCase{
+			Class:  rapid.IntRange(0, 2).Draw(v.R, "class"),
+			K:      k,
+			J:      rapid.IntRange(0, 15-k).Draw(v.R, "j"),
+			Size:   rapid.SampledFrom([]int{12, 100, 1200, 1400}).Draw(v.R, "size"),
+			Yields: rapid.SampledFrom([]int{0, 0, 1, 3, 10}).Draw(v.R, "yields"),
+			Reps:   10,
+		}
+	}, vfC27ConcRun)
 }
